@@ -552,6 +552,12 @@ func (g *fgen) families() {
 	g.w("func Defer_%d() (err error) {\n\tdefer func() {\n\t\terr = errors.New(\"d\")\n\t}()\n\treturn nil\n}\n", s)
 	g.w("func Select_%d(ch chan int) (int, bool) {\n\tselect {\n\tcase v, ok := <-ch:\n\t\treturn v, ok\n\tdefault:\n\t\treturn -1, false\n\t}\n}\n", s)
 	g.w("func Shadowed_%d() (int, error) {\n\terr := errors.New(\"outer\")\n\t{\n\t\terr := 5\n\t\t_ = err\n\t}\n\treturn 0, err\n}\n", s)
+	g.w("func Grouped_%d(c bool) (host, port string, err error) {\n\thost = \"localhost\"\n\tif c {\n\t\tport, err = \"80\", errors.New(\"g\")\n\t\treturn\n\t}\n\tport = \"443\"\n\treturn\n}\n", s)
+	g.w("func Grouped2_%d() (a, b int, s string, e1, e2 error) {\n\ta, b = 1, 2\n\ts = \"x\"\n\te2 = errors.New(\"two\")\n\treturn\n}\n", s)
+	g.w("func callWide_%d(f func() ([]byte, int, error)) error {\n\t_, _, err := f()\n\treturn err\n}\n", s)
+	g.w("func ClosWideInNarrow_%d() error {\n\treturn callWide_%d(func() ([]byte, int, error) { return nil, 0, errors.New(\"w\") })\n}\n", s, s)
+	g.w("func ClosWideNamed_%d() (err error) {\n\terr = callWide_%d(func() ([]byte, int, error) {\n\t\tif true {\n\t\t\treturn []byte(\"a\"), 1, nil\n\t\t}\n\t\treturn nil, 0, io.EOF\n\t})\n\treturn\n}\n", s, s)
+	g.w("func ClosAnyErr_%d() (any, error) {\n\treturn 1, callWide_%d(func() ([]byte, int, error) { return nil, 2, nil })\n}\n", s, s)
 	g.w("func TypeSwitch_%d(v any) (string, error) {\n\tswitch x := v.(type) {\n\tcase string:\n\t\treturn x, nil\n\tcase error:\n\t\treturn \"\", x\n\t}\n\treturn \"\", nil\n}\n", s)
 }
 
